@@ -93,7 +93,9 @@ PROPS['C07'] = {
     'level_text': 'Every algorithm row x direction x every valid length of the sweep x {all caller objects end-flush, all start-flush against PROT_NONE pages} x {alone, co-scheduled between a longer and a shorter job} x 7 variants, plus IV/tag/AAD extent sweeps; any access outside an object faults and is attributed to the object by address; canaries catch stray writes on shared pages; out-of-place sources must be unchanged.',
     'level_note': 'Key objects and the manager itself are not guard-placed; direct-API functions are guard-placed (end-flush and start-flush, every input, output, IV, AAD and tag buffer; bytes around the destination checked) by the second driver props/c09d.c. In-place = out-of-place equality follows from C01-C03 comparing both against one reference.',
     'drivers': [{'name': 'c07', 'src': ['props/c07.c'] + ALG, 'cfgs': ['std'], 'args': ''},
-                {'name': 'c09d', 'src': ['props/c09d.c'] + ALG, 'cfgs': ['std'], 'args': 'C07'}],
+                {'name': 'c09d', 'src': ['props/c09d.c'] + ALG, 'cfgs': ['std'], 'args': 'C07'},
+                # streaming interfaces: every source segment of every update call of the C10 exploration ends flush against an unmapped page
+                {'name': 'c10', 'src': ['props/c10.c'] + ALG, 'cfgs': ['std'], 'args': 'C07'}],
     'deadline': {'quick': 900, 'thorough': 3000},
     'assumptions': ['object extents: message range, iv_len, aad_len, tag_len exactly as given in the job'],
 }
